@@ -135,7 +135,7 @@ REQUIRED_LABELS = [
     "lstsq:W:rank_deficient", "lstsq:b:zero", "lstsq:b:mixed_sign", "lstsq:residuals:reported",
     "svd:W:rank_deficient", "svd:b:zero", "svd:shape:under", "svd:shape:over",
     # reuse relation: 2 and 3 calls on the same Python objects, with and without a changed parameter
-    "sart:reuse:2", "sart:reuse:3", "sart:reuse:param_changed", "sart:reuse:same_params", "sart_fixed:reuse:2", "sart_fixed:reuse:3",
+    "sart:reuse:edited-in-place", "sart:reuse:2", "sart:reuse:3", "sart:reuse:param_changed", "sart:reuse:same_params", "sart_fixed:reuse:2", "sart_fixed:reuse:3",
     "nnls:reuse:2", "nnls:reuse:3", "nnls:reuse:param_changed", "lstsq:reuse:2", "lstsq:reuse:3", "lstsq:reuse:param_changed",
     "svd:reuse:2", "svd:reuse:3",
     # input forms: dtypes / memory layouts the solvers accept on the unchanged tree
@@ -371,6 +371,10 @@ def sart_case(draw):
     if case["variant"] == "constrained":
         case["L"] = draw(l_spec(n, False))
     case["reuse"] = _reuse(draw, _sart_override)
+    if draw(st.booleans()):
+        # the caller edits his own matrix / measurement array IN PLACE (same objects) and calls again: a time series, a re-weighted ray
+        case["edit"] = {"i": draw(st.integers(0, 99)), "j": draw(st.integers(0, 99)), "u": draw(st.sampled_from([0.0, 0.25, 0.5, 1.5, 3.0])),
+                        "row": draw(st.booleans()), "bk": draw(st.integers(0, 99)), "bu": draw(st.sampled_from([None, 0.5, 2.0, 3.0]))}
     return case
 
 
@@ -679,6 +683,10 @@ class Owned:
         self.items.append((name, obj, obj.tobytes(), obj.shape, obj.dtype, obj.flags["F_CONTIGUOUS"]))
         return obj
 
+    def rebase(self):
+        """the caller changed his arrays himself: record their present bytes as the reference"""
+        self.items = [(name, obj, obj.tobytes(), obj.shape, obj.dtype, fc) for name, obj, _, _, _, fc in self.items]
+
     def scan(self, call_no):
         for name, obj, raw, shape, dtype, fc in self.items:
             if self.first_bad is None and (obj.shape != shape or obj.dtype != dtype or obj.tobytes() != raw):
@@ -893,6 +901,38 @@ def run_sart(case, ctx):
             first = (prm, x, conv, r)
     owned.verdict(ctx)
     _sart_equiv(ctx, case, W0, b0, L0, x0, variant, first[0], first[1], first[2], first[3])
+    ed = case.get("edit")
+    if ed:
+        # in-place edit of the caller's arrays, then the same call on the same objects: the answer is that of the edited problem
+        i, j, k = ed["i"] % m, ed["j"] % n, ed["bk"] % m
+        top = float(np.abs(W0).max()) or 1.0
+        W0 = W0.copy()
+        b0 = b0.copy()
+        if ed["row"]:
+            W0[i, :] = W0[i, :] * (ed["u"] if ed["u"] > 0 else 0.5) + (0.125 * top if ed["u"] == 0.0 else 0.0)
+            W[i, :] = W0[i, :]
+        else:
+            W0[i, j] = ed["u"] * top if W0[i, j] != ed["u"] * top else 0.75 * top
+            W[i, j] = W0[i, j]
+        if ed["bu"] is not None:
+            b0[k] = (abs(b0[k]) if b0[k] != 0 else float(np.abs(b0).max())) * ed["bu"]
+            b[k] = b0[k]
+        in_domain = bool(np.any(b0 != 0)) and np.all(np.isfinite(W0)) and np.all(np.isfinite(b0)) and np.array_equal(np.asarray(W, dtype=float), W0) \
+            and np.array_equal(np.asarray(b, dtype=float), b0) and not _subnormal_sum_gate(case, ctx, W0)
+        if in_domain:
+            deg2, rank2, _, _ = w_classes(W0, ctx, b0)
+            owned.rebase()
+            with ctx.cut("call"):
+                if variant == "plain":
+                    x, conv = invert_sart(W, b, **kw)
+                else:
+                    x, conv = invert_constrained_sart(W, L, b, **kw)
+                x = np.array(x, dtype=float)
+                conv = [float(c) for c in conv]
+            owned.scan(90)
+            _certify_sart(ctx, W0, b0, L0, x0, variant, prm, x, conv, 90, deg2 or rank2 < min(m, n))
+            owned.verdict(ctx)
+            ctx.label("reuse:edited-in-place")
     ctx.nt(nt)
 
 
